@@ -144,6 +144,13 @@ def verify_function(qualname: str, self_class: Optional[str] = None, timeout_ms=
                 ci = ct.classes[owner]
                 rec = Rec(ci, it.new_oid(ci.name))
                 env[names[0]] = rec
+            if self_class is None and not is_ctor and names and isinstance(env.get(names[0]), SV) \
+                    and isinstance(env[names[0]].ty, TNode) and owner is not None and names[0] == 'self':
+                # the receiver is an instance of the class that declares the method (or a subclass)
+                cis = [ci for ci in ct.sort_classes[env[names[0]].ty.sort] if issubclass(ci.cls, owner)]
+                if cis and len(cis) < len(ct.sort_classes[env[names[0]].ty.sort]):
+                    ex.assume(it.bterm(it.class_cond(env[names[0]], cis)))
+                    it.restrict_class(env[names[0]], cis)
             if self_class is not None and isinstance(env.get(names[0]), SV):
                 ci = ct.by_name[self_class]
                 ex.assume(ct.is_class(ci, env[names[0]].term))
